@@ -397,6 +397,24 @@ class StmtMixin:
             if isinstance(base, list) and isinstance(concrete(idx), int):
                 base[concrete(idx)] = v
                 return
+            if isinstance(base, list) and base and is_z3(idx) and idx.sort().kind() in (z3.Z3_INT_SORT, z3.Z3_REAL_SORT) \
+                    and all(is_z3(b) or isinstance(b, (int, float)) for b in base) and (is_z3(v) or isinstance(v, (int, float))):
+                # store at a symbolic position of a fixed-length local sequence (e.g. `cdef double p[3]`): the position must be in range
+                # (C arrays: 0 <= i < n, no wrap-around; Python lists wrap negative positions), every slot becomes a case split on the position
+                from .values import to_int as _ti, to_real as _tr
+                i = _ti(idx); n = len(base)
+                what = ast.unparse(target.value)
+                if fr.is_cython:
+                    self.emit(st, 'bounds.%s' % what, z3.And(i >= 0, i < n), 'position inside the fixed-size C array')
+                else:
+                    self.emit(st, 'defined.index.%s' % what, z3.And(i >= -n, i < n), 'index in range')
+                    if self.feasible(st, i < 0):
+                        i = z3.If(i < 0, i + n, i)
+                real = any((is_z3(b) and b.sort().kind() == z3.Z3_REAL_SORT) or isinstance(b, float) for b in list(base) + [v])
+                cv = (lambda t: _tr(t)) if real else (lambda t: _ti(t))
+                for k in range(n):
+                    base[k] = z3.If(i == k, cv(v), cv(base[k]))
+                return
             if isinstance(base, SymDict):
                 for n_, (k, _) in enumerate(base.items):
                     if (isinstance(k, Obj) and isinstance(idx, Obj) and k.ref.eq(idx.ref)) or (is_z3(k) and is_z3(idx) and k.eq(idx)) \
